@@ -489,7 +489,7 @@ func bindsG(vs []vinfo, inits []node) string {
 // control forms whose value is the value of an inner expression of type t
 func (g *gen) control(t typ, d int) (node, bool) {
 	nilable := nilableT(t)
-	switch g.r.Intn(33) {
+	switch g.r.Intn(35) {
 	case 0:
 		g.h("progn")
 		b := g.body(t, d, 2)
@@ -738,6 +738,8 @@ func (g *gen) control(t typ, d int) (node, bool) {
 		return g.optCall(t, d)
 	case 31, 32:
 		return g.defaultClosure(t, d)
+	case 33, 34:
+		return g.initOwnCapture(t, d)
 	case 21, 22:
 		return g.shadowCall(t, d)
 	case 23:
